@@ -225,6 +225,25 @@ def run(tier, seed, replay=None):
             w, cli = world_for(c, i, rng)
             worlds.append(w)
             clis.append((w, cli, c))
+        # read geometries around the end of decrypted and generated images whose size is not sector-aligned / is padded
+        for i, extra in enumerate([0, 100, 2047]):
+            t = 1490000000
+            img = srv.fnode(["PS3ISO", "g.iso"], 4 * S + extra, cid="geo_enc%d" % i, mtime=t + 2)
+            img["enc"] = {"kind": "redump", "key": KEY, "regions": [[0, 1], [3, 4]], "sectors": 4, "extraLen": extra, "plainName": "geo_plain%d" % i}
+            img["vcid"] = "geo_plain%d" % i
+            kn = srv.fnode(["PS3ISO", "g.dkey"], 32, cid="geo_key%d" % i, mtime=t + 3)
+            kn["raw"] = KEY.encode().hex()
+            nodes = [srv.dnode(["PS3ISO"], t), img, kn, srv.dnode(["d"], t + 4), srv.fnode(["d", "x.bin"], 2049, cid="geo_x%d" % i, mtime=t + 5)]
+            size = 4 * S + extra
+            conns = []
+            for k, pth in enumerate(["/PS3ISO/g.iso", "/***DVD***/d"]):
+                top = size if k == 0 else 131072
+                reqs = [{"op": "OPEN_FILE", "path": pth}]
+                for off in [0, 1, S - 1, top - 1, top, top + 1, top + 400, top + S - 1, top + S, 3 * S + 5, 10 ** 6, 2 ** 40]:
+                    for lim in [1, 16, 512, 2049, 70000]:
+                        reqs.append({"op": "READ_FILE", "limit": lim, "off": off})
+                conns.append({"id": k + 1, "reqs": reqs})
+            worlds.append({"name": "geometry-%d" % extra, "aw": False, "nodes": nodes, "views": [{"vk": "dvd", "p": ["d"]}], "conns": conns, "probe": True})
         # hostile byte streams against a normal tree
         nstream = 300 if not full else 6000
         for i in range(0, nstream, 10):
